@@ -1,11 +1,12 @@
 #!/venv/bin/python
-"""Keep the property-preserving changes (negative controls): tools/keepbenign.py <b3 root> <results dir>
+"""Keep the property-preserving changes (negative controls): tools/keepbenign.py <root> <results dir> [name suffix]
 
 For every <root>/<ID>/out/patch_{a,b}.diff with a result <results>/<ID>{a,b}.json (written by tools/benigncheck.py)
 copies patch, demo.py and a meta.json (the author's description + what was run + the outcome) to /verif/benign/<ID><v>/."""
 import json, os, shutil, sys
 HERE = os.path.dirname(os.path.dirname(os.path.abspath(__file__)))
 root, resdir = sys.argv[1:3]
+suffix = sys.argv[3] if len(sys.argv) > 3 else ""
 n = 0
 for pid in sorted(os.listdir(root)):
     out = os.path.join(root, pid, "out")
@@ -25,7 +26,7 @@ for pid in sorted(os.listdir(root)):
         except Exception:  # noqa: BLE001
             print("unparsable result", rj)
             continue
-        dst = os.path.join(HERE, "benign", f"{pid}{v}")
+        dst = os.path.join(HERE, "benign", f"{pid}{v}{suffix}")
         os.makedirs(dst, exist_ok=True)
         shutil.copy(patch, os.path.join(dst, "patch.diff"))
         if os.path.exists(os.path.join(out, "demo.py")):
